@@ -480,3 +480,9 @@ CHECKS["C15"]["thorough"]["tests"].append({"test": "TestC15Foreign", "checks": 3
 CHECKS["C15"]["rule"] += (" Plus two parsers side by side: A is given a caller slice with Reset(data), grows beyond it and is "
                           "dropped, the caller overwrites its slice; B, fed in between (sizes up to 100 kB), must still show "
                           "exactly the bytes it was fed.")
+
+CHECKS["C04"]["quick"]["tests"].append({"test": "TestC04Volume", "checks": 4, "subchecks": 1, "env": {"VERIF_VOLUME_DEC": "1"}})
+CHECKS["C04"]["thorough"]["tests"].append({"test": "TestC04Volume", "checks": 12, "subchecks": 1, "env": {"VERIF_VOLUME_DEC": "1"}})
+CHECKS["C04"]["rule"] += (" Plus volume: one DecoderBuffer / Decoder is driven past 2^32 bytes of output without a Reset (periodic "
+                          "stream written with window-sized matches, read out and compared completely), with a generated mix of "
+                          "WriteByte, Write, WriteMatch, WriteBlock around and behind the 4 GiB mark.")
